@@ -147,11 +147,11 @@ def case_cli(run, i):
     argv = ["coverage", bam, bedp, "-o", out, "-q", str(q), "-p", str([1, 2, 4][i % 3])] + (["-c"] if i % 2 else [])
     run.begin_case("cli", i, cls="cli:" + ("count" if i % 2 else "pileup"), argv=argv[3:])
     covmon.CHUNK["size"] = [5000, 7, 50][i % 3]
-    try:
-        args = commands.parse_args(argv)
-        args.func(args)
-    except Exception as exc:
-        run.extra[f"cli-raised:{type(exc).__name__}"] += 1
+    import cnvlib.coverage as CV
+    from ..monitors import cli_plumb
+    r = cli_plumb.check_cli(run, rt, CV, "do_coverage", argv, dict(bed_fname=bedp, bam_fname=bam, by_count=bool(i % 2), min_mapq=q, processes=[1, 2, 4][i % 3], fasta=None), "coverage")
+    if r is not None:
+        cli_plumb.held(run, "coverage", "cli-coverage")
     covmon.CHUNK["size"] = 5000
     mon = "cli.coverage[file]"
     if os.path.exists(out):
@@ -184,7 +184,7 @@ def case_cli(run, i):
 WORKLOADS = {"bam": (_n, case_bam), "cli": (_n_cli, case_cli)}
 _Q = {"coverage.do_coverage|held": 250, "coverage.do_coverage[same-table-any-schedule]|held": 150, "extra:bins-with-coverage:pileup": 2000,
       "extra:bins-with-coverage:count": 2000, "extra:calls-with-several-chunks": 40, "extra:calls-completing-out-of-submission-order": 5,
-      "cli.coverage[file]|held": 5}
+      "cli.coverage[file]|held": 5, "cli.coverage[plumbing]|held": 5}
 QUOTAS = {"quick": _Q, "thorough": {k: v * 8 for k, v in _Q.items()}}
 
 
